@@ -3,7 +3,7 @@
 sources and record, for each, whether the translator refuses (exit 3) or the regenerated Lean
 changes and `SSJ.Proofs.GenLoops` stops compiling.  Never touches /repo.
 
-usage: robustness_check.py <repo_root> <lean_project_dir>
+usage: robustness_check.py <repo_root> <lean_project_dir> [2|3|all]     (stage-2 mutants, stage-3 mutants, both)
 """
 import os, shutil, subprocess, sys, tempfile, json
 
@@ -83,16 +83,83 @@ MUTANTS = [
      "return self.index.get(token, [])", "return self.index.get(token)"),
 ]
 
+SFP = 'py_stringsimjoin/filter/suffix_filter.py'
+SZP = 'py_stringsimjoin/filter/size_filter.py'
+PRP = 'py_stringsimjoin/filter/prefix_filter.py'
+PFP = 'py_stringsimjoin/filter/position_filter.py'
+OFP = 'py_stringsimjoin/filter/overlap_filter.py'
+SSJP = 'py_stringsimjoin/join/set_sim_join.py'
+OCP = 'py_stringsimjoin/join/overlap_coefficient_join_py.py'
+EDP = 'py_stringsimjoin/join/edit_distance_join_py.py'
+MUTANTS3 = [
+    ('S01 _number_repeated_tokens: occurrence += 2', SFP, "            occurrence += 1\n", "            occurrence += 2\n"),
+    ('S02 _number_repeated_tokens: restart at 1', SFP, "        else:\n            occurrence = 0\n", "        else:\n            occurrence = 1\n"),
+    ('S03 _binary_search: mid+1 -> mid', SFP, "probe_token, mid+1, right)", "probe_token, mid, right)"),
+    ('S04 _binary_search: < -> >', SFP, "elif mid_token < probe_token:", "elif mid_token > probe_token:"),
+    ('S05 _partition: clip at len(tokens)', SFP, "right = min(right, len(tokens) - 1)", "right = min(right, len(tokens))"),
+    ('S06 _partition: keep the probe token on the right', SFP, "tokens_right = tokens[pos+1:len(tokens)]", "tokens_right = tokens[pos:len(tokens)]"),
+    ('S07 _est_hamming: o_l/o_r swapped', SFP, "            o_l = 1\n            o_r = 0\n", "            o_l = 0\n            o_r = 1\n"),
+    ('S08 _est_hamming: depth >= max_depth', SFP, "if (depth > self.max_depth or", "if (depth >= self.max_depth or"),
+    ('S09 SuffixFilter.__init__: max_depth = 3', SFP, "self.max_depth = 2", "self.max_depth = 3"),
+    ('S10 _est_hamming: return hamming_dist_max when the partition fails', SFP, "            return hamming_dist_max + 1\n", "            return hamming_dist_max\n"),
+    ('S11 _filter_suffix: overlap threshold counted once', SFP, "                            2 * overlap_threshold +", "                            overlap_threshold +"),
+    ('S12 _filter_suffix: numbering under the wrong measure', SFP, "        if self.sim_measure_type == 'EDIT_DISTANCE':\n            l_suffix = _number", "        if self.sim_measure_type == 'JACCARD':\n            l_suffix = _number"),
+    ('S13 SuffixFilter.filter_pair: right suffix cut at the left prefix length', SFP, "ordered_rtokens[r_prefix_length:],\n                             l_prefix_length,", "ordered_rtokens[l_prefix_length:],\n                             l_prefix_length,"),
+    ('S14 suffix worker: `not` dropped before _filter_suffix', SFP, "            if not suffix_filter._filter_suffix(l_suffix,", "            if suffix_filter._filter_suffix(l_suffix,"),
+    ('Z01 SizeFilter.filter_pair: strict bounds', SZP, "if size_lower_bound <= r_num_tokens <= size_upper_bound:\n            return False", "if size_lower_bound < r_num_tokens < size_upper_bound:\n            return False"),
+    ('Z02 SizeFilter.filter_pair: OVERLAP empty pair kept', SZP, "            if self.sim_measure_type == 'OVERLAP':\n                return True", "            if self.sim_measure_type == 'OVERLAP':\n                return False"),
+    ('Z03 SizeFilter.find_candidates: >= probe_size', SZP, "if size_lower_bound > probe_size:", "if size_lower_bound >= probe_size:"),
+    ('Z04 SizeFilter.find_candidates: range misses the upper bound', SZP, "xrange(size_lower_bound, size_upper_bound + 1)", "xrange(size_lower_bound, size_upper_bound)"),
+    ('Z05 size worker: empty rows matched without handle_empty', SZP, "        if handle_empty and r_num_tokens == 0:", "        if r_num_tokens == 0:"),
+    ('P01 PrefixFilter.filter_pair: >= 0', PRP, "if len(prefix_overlap) > 0:", "if len(prefix_overlap) >= 0:"),
+    ('P02 PrefixFilter.find_candidates: whole token list probed', PRP, "for token in probe_tokens[0:probe_prefix_length]:\n            candidates.update", "for token in probe_tokens:\n            candidates.update"),
+    ('Q01 PositionFilter.filter_pair: r_pos not advanced', PFP, "                current_overlap += 1\n            r_pos += 1\n", "                current_overlap += 1\n"),
+    ('Q02 PositionFilter.filter_pair: upper bound without the 1 +', PFP, "overlap_upper_bound = 1 + min(l_num_tokens - l_pos - 1,", "overlap_upper_bound = min(l_num_tokens - l_pos - 1,"),
+    ('Q03 position worker: overlap >= 0', PFP, "        for cand, overlap in iteritems(candidate_overlap):\n            if overlap > 0:\n                if has_output_attributes:", "        for cand, overlap in iteritems(candidate_overlap):\n            if overlap >= 0:\n                if has_output_attributes:"),
+    ('O01 OverlapFilter.filter_pair: comparison arguments swapped', OFP, "if COMP_OP_MAP[self.comp_op](num_overlap, self.overlap_size):", "if COMP_OP_MAP[self.comp_op](self.overlap_size, num_overlap):"),
+    ('O02 overlap worker: score not appended', OFP, "                if out_sim_score:\n                    output_row.append(overlap)\n", ""),
+    ('O03 utils.simfunctions.overlap counts the union', 'py_stringsimjoin/utils/simfunctions.py', "return len(set1.intersection(set2))", "return len(set1.union(set2))"),
+    ('I01 SizeIndex.build: row_id not advanced for empty rows', 'py_stringsimjoin/index/size_index.py', "            if num_tokens == 0:\n                row_id += 1\n                continue", "            if num_tokens == 0:\n                continue"),
+    ('I02 PrefixIndex.build: posts the token count', 'py_stringsimjoin/index/prefix_index.py', "self.index.get(token).append(row_id)", "self.index.get(token).append(num_tokens)"),
+    ('I03 InvertedIndex.build: size cache flag negated', 'py_stringsimjoin/index/inverted_index.py', "            if self.cache_size_flag:", "            if not self.cache_size_flag:"),
+    ('T01 gen_token_ordering_for_tables: table_index not advanced', 'py_stringsimjoin/utils/token_ordering.py', "                token_freq_dict[token] = token_freq_dict.get(token, 0) + 1\n        table_index += 1\n", "                token_freq_dict[token] = token_freq_dict.get(token, 0) + 1\n"),
+    ('T02 gen_token_ordering_for_tables: ranks from 0', 'py_stringsimjoin/utils/token_ordering.py', "    token_ordering = {}\n    order_idx = 1\n", "    token_ordering = {}\n    order_idx = 0\n"),
+    ('J01 set_sim_join: round to 3 digits', SSJP, "r_ordered_tokens), 4)", "r_ordered_tokens), 3)"),
+    ('J02 set_sim_join: overlap >= 0', SSJP, "            if overlap > 0:", "            if overlap >= 0:"),
+    ('J03 set_sim_join: empty pairs scored 0.0', SSJP, "output_row.append(1.0)", "output_row.append(0.0)"),
+    ('J04 set_sim_join: tokens not cached', SSJP, "position_index.build(allow_empty, cache_tokens=True)", "position_index.build(allow_empty, cache_tokens=False)"),
+    ('J05 set_sim_join: tables swapped in the token ordering call', SSJP, "                         [ltable, rtable],\n                         [l_join_attr_index, r_join_attr_index],", "                         [rtable, ltable],\n                         [l_join_attr_index, r_join_attr_index],"),
+    ('J06 set_sim_join: comparison arguments swapped', SSJP, "if comp_fn(sim_score, threshold):", "if comp_fn(threshold, sim_score):"),
+    ('J07 set_sim_join: row stored before the score is appended (aliasing)', SSJP,
+     "                    if out_sim_score:\n                        output_row.append(sim_score)\n\n                    output_rows.append(output_row)",
+     "                    output_rows.append(output_row)\n                    if out_sim_score:\n                        output_row.append(sim_score)\n"),
+    ('J08 set_sim_join: PositionFilter built for another threshold', SSJP, "pos_filter = PositionFilter(tokenizer, sim_measure_type, threshold)", "pos_filter = PositionFilter(tokenizer, sim_measure_type, 0.5)"),
+    ('K01 overlap coefficient: max instead of min', OCP, "float(min(r_num_tokens,", "float(max(r_num_tokens,"),
+    ('K02 overlap coefficient: sizes not cached', OCP, "tokenizer, cache_size_flag=True)", "tokenizer, cache_size_flag=False)"),
+    ('D01 edit distance: length filter loses its upper bound', EDP, "if r_len - threshold <= l_join_attr_list[cand] <= r_len + threshold:", "if r_len - threshold <= l_join_attr_list[cand]:"),
+    ('D02 edit distance: prefix index caches empty records', EDP, "prefix_index.build(False)", "prefix_index.build(True)"),
+    ('D03 edit distance: measure constant changed', EDP, "sim_measure_type = 'EDIT_DISTANCE'", "sim_measure_type = 'JACCARD'"),
+    ('V01 missing pairs: second loop over the missing left rows', 'py_stringsimjoin/utils/missing_value_handler.py', "for l_row in ltable_not_missing.itertuples(index=False):", "for l_row in ltable_missing.itertuples(index=False):"),
+    ('V02 missing pairs: selection negated', 'py_stringsimjoin/utils/missing_value_handler.py', "ltable_missing = ltable[pd.isnull(ltable[l_join_attr])]", "ltable_missing = ltable[pd.notnull(ltable[l_join_attr])]"),
+    ('V03 missing pairs: NaN score only in the second loop', 'py_stringsimjoin/utils/missing_value_handler.py',
+     "                output_row = [l_row[l_key_attr_index], r_row[r_key_attr_index]]\n\n            if out_sim_score:\n                output_row.append(np.NaN)\n\n            output_rows.append(output_row)\n\n        if show_progress:\n            prog_bar.update()\n\n    # For each rtable",
+     "                output_row = [l_row[l_key_attr_index], r_row[r_key_attr_index]]\n\n            output_rows.append(output_row)\n\n        if show_progress:\n            prog_bar.update()\n\n    # For each rtable"),
+    ('G01 build_dict_from_table: `and` -> `or`', 'py_stringsimjoin/utils/generic_helper.py', "if remove_null and pd.isnull(row[join_attr_index]):\n            continue\n        table_dict", "if remove_null or pd.isnull(row[join_attr_index]):\n            continue\n        table_dict"),
+]
+
 
 def main():
     repo, lean = sys.argv[1], sys.argv[2]
+    which = sys.argv[3] if len(sys.argv) > 3 else 'all'
+    mutants = {'2': MUTANTS, '3': MUTANTS3, 'all': MUTANTS + MUTANTS3}[which]
     here = os.path.dirname(os.path.abspath(__file__))
     tr = os.path.join(here, 'py2lean2.py')
-    gen = os.path.join(lean, 'SSJ', 'Gen', 'Loops.lean')
-    orig = open(gen, encoding='utf-8').read()
+    gens = [os.path.join(lean, 'SSJ', 'Gen', n) for n in ('Loops.lean', 'Loops2.lean')]
+    orig = [open(g, encoding='utf-8').read() for g in gens]
+    body = lambda t: t[t.index('import SSJ'):]
     results = []
     try:
-        for (name, rel, old, new) in MUTANTS:
+        for (name, rel, old, new) in mutants:
             tmp = tempfile.mkdtemp(prefix='mut_')
             shutil.copytree(os.path.join(repo, 'py_stringsimjoin'), os.path.join(tmp, 'py_stringsimjoin'),
                             ignore=shutil.ignore_patterns('*.so', '*.pyc', '__pycache__', '*.c', '*.cpp'))
@@ -106,32 +173,37 @@ def main():
             out = os.path.join(tmp, 'out')
             r = subprocess.run([sys.executable, tr, tmp, out], capture_output=True, text=True)
             if r.returncode == 3:
-                results.append((name, 'REFUSED: ' + json.loads(r.stdout)['error']))
+                results.append((name, 'REFUSED: ' + json.loads(r.stdout)['error'].splitlines()[0][:230]))
             elif r.returncode != 0:
                 results.append((name, 'TRANSLATOR CRASH rc=%d %s' % (r.returncode, r.stderr[-300:])))
             else:
-                text = open(os.path.join(out, 'Loops.lean'), encoding='utf-8').read()
-                body = lambda t: t[t.index('import SSJ'):]
-                if body(text) == body(orig):
+                texts = [open(os.path.join(out, os.path.basename(g)), encoding='utf-8').read() for g in gens]
+                if all(body(t) == body(o) for t, o in zip(texts, orig)):
                     results.append((name, 'UNDETECTED: generated Lean unchanged'))
                 else:
-                    open(gen, 'w', encoding='utf-8').write(text)
-                    b = subprocess.run(['lake', 'build', 'SSJ.Proofs.GenLoops'], cwd=lean, capture_output=True, text=True)
+                    for g, t in zip(gens, texts):
+                        open(g, 'w', encoding='utf-8').write(t)
+                    b = subprocess.run(['lake', 'build', 'SSJ.Proofs.GenLoops2'], cwd=lean, capture_output=True, text=True)
                     if b.returncode == 0:
                         results.append((name, 'UNDETECTED: Lean changed but proofs still compile'))
                     else:
                         errs = [l for l in b.stdout.splitlines() if l.startswith('error:') and '.lean:' in l]
                         results.append((name, 'PROOF BREAKS: ' + (errs[0][:140] if errs else 'build failed')))
+                    for g, o in zip(gens, orig):
+                        open(g, 'w', encoding='utf-8').write(o)
             shutil.rmtree(tmp)
     finally:
-        open(gen, 'w', encoding='utf-8').write(orig)
-        subprocess.run(['lake', 'build', 'SSJ.Proofs.GenLoops'], cwd=lean, capture_output=True, text=True)
+        for g, o in zip(gens, orig):
+            open(g, 'w', encoding='utf-8').write(o)
+        subprocess.run(['lake', 'build', 'SSJ.Proofs.GenLoops2'], cwd=lean, capture_output=True, text=True)
     bad = 0
+    counts = {}
     for name, res in results:
-        print('%-62s %s' % (name, res))
+        print('%-74s %s' % (name, res))
+        counts[res.split(':')[0]] = counts.get(res.split(':')[0], 0) + 1
         if res.startswith(('UNDETECTED', 'MUTATION', 'TRANSLATOR')):
             bad += 1
-    print('%d mutants, %d not detected' % (len(results), bad))
+    print('%d mutants: %s; %d not detected' % (len(results), counts, bad))
     sys.exit(1 if bad else 0)
 
 
